@@ -84,6 +84,13 @@ def _dw_document(loop):
              'references': refs}
         if c['stage'] or c.get('explicit_stage'):
             d['stage'] = c['stage']
+        wa = {}
+        if c.get('rep') is not None:
+            wa['replicate'] = c['rep'] if isinstance(c['rep'], int) else '%%(%s)s' % c['rep']
+        if c.get('agg'):
+            wa['aggregate'] = True
+        if wa:
+            d['workflowAttributes'] = wa
         dw['components'].append(d)
     return dw
 
@@ -105,7 +112,17 @@ def documents_multi(case):
         refs = [ref_str(*r) for r in o['refs']]
         comps.append({'stage': o['stage'], 'name': o['name'], 'references': refs,
                       'command': {'executable': 'echo', 'arguments': _args(refs)}})
-    return {'components': comps}, [_dw_document(l) for l in loops]
+        if o.get('agg'):
+            comps[-1]['workflowAttributes'] = {'aggregate': True}
+    main = {'components': comps}
+    v = case.get('vars')
+    if v:
+        scope = lambda g, s: {'global': dict(g), 'stages': dict((int(k), dict(x)) for k, x in s.items())}
+        main['variables'] = {'default': scope(v.get('dg', {}), v.get('ds', {}))}
+        if case.get('platform'):
+            main['platforms'] = ['default', case['platform']]
+            main['variables'][case['platform']] = scope(v.get('pg', {}), v.get('ps', {}))
+    return main, [_dw_document(l) for l in loops]
 
 
 def documents(case):
@@ -191,7 +208,7 @@ def drive(case):
                 yaml.safe_dump(dw, f)
         try:
             ep = experiment.model.storage.ExperimentPackage.packageFromLocation(pkg)
-            exp = experiment.model.data.Experiment.experimentFromPackage(ep, location=tmp)
+            exp = experiment.model.data.Experiment.experimentFromPackage(ep, location=tmp, platform=case.get('platform'))
             exp.validateExperiment(checkExecutables=False)
         except Exception as e:
             return {'error': 'load:' + type(e).__name__, 'msg': str(e)[:300]}
@@ -259,7 +276,7 @@ def drive(case):
                       for p, v in g._placeholders.items())
             # resolution of the references of the outside consumers
             res = {}
-            for o in case['outs']:
+            for o in (case.get('xouts') or case['outs']):
                 for r in o['refs']:
                     s = ref_str(*r)
                     try:
@@ -297,9 +314,13 @@ def drive(case):
             obs['preds'] = after
         ids = g._concrete.get_component_identifiers(True)
         mp = {}
-        for loop in loops:
-            for c in loop['comps']:
-                pid = (loop['S'] + c['stage'], c['name'])
+        for j, loop in enumerate(loops):
+            # (replication inside the loop: the placeholders are the replicas, case['xcomps'])
+            ids_of = [(c['stage'], c['name']) for c in loop['comps']]
+            if j == 0 and case.get('xcomps'):
+                ids_of = [tuple(x) for x in case['xcomps']]
+            for cst, cname in ids_of:
+                pid = (loop['S'] + cst, cname)
                 m = F.map_placeholder_id_to_iteration(pid, [], ids)
                 mp['stage%d.%s' % pid] = None if m is None else 'stage%d.%s' % m
         obs['map_latest'] = mp
